@@ -17,8 +17,9 @@ RULE = (
     "number spellings - and parse_to_sexpression must return exactly the S-expression rendered independently from "
     "the model (layout-independent, so nothing may be dropped). Non-trivial = (>=2 block comments or a comment "
     "inside a statement) and both ';' and newline used as separators. "
-    "negative: a legal token stream gets one or two token-level edits (delete, duplicate, swap adjacent, replace or "
-    "insert a token from a pool of all literals/keywords/identifiers/numbers/separators), rendered space-separated; "
+    "negative: a legal token stream gets zero to two token-level edits (delete, duplicate, swap adjacent, replace or "
+    "insert a token from a pool of all literals/keywords/identifiers/numbers/separators) and/or up to two exchanges "
+    "of whole top-level statements (header statements, macro definitions, body statements), rendered space-separated; "
     "an independent Earley recognizer for the grammar decides accept/reject and the first offending token k; the "
     "parser must accept iff the recognizer accepts (then the tree must equal an independent recursive-descent "
     "tree), and on reject raise JaqalParseError positioned at a token with index >= k or at end of input. "
@@ -198,17 +199,44 @@ def _nearmiss_case(ch):
     muts = []
     for _ in range(ch.pick([0, 1, 1, 1, 1, 1, 2, 2])):
         muts.append([ch.pick(["delete", "duplicate", "swap", "replace", "replace", "insert"]), ch.int(0, 10**6), ch.int(0, len(POOL) - 1)])
-    return {"prog": prog, "seps": ch.ints(16, 0, 5), "muts": muts}
+    order = [[ch.int(0, 50), ch.int(0, 50)] for _ in range(ch.pick([0, 0, 1, 1, 2]))]
+    return {"prog": prog, "seps": ch.ints(16, 0, 5), "muts": muts, "order": order}
 
 
 def nearmiss_cases():
     return gen.cases(_nearmiss_case)
 
 
-def _token_stream(prog, sepsel):
+def _item_order_tokens(prog, order):
+    """Token stream (abstract separators) of the program with its top-level items permuted:
+    header statements, macro definitions and body statements in the drawn order."""
+    from ..render import header_items, macro_tokens, stmt_tokens
+
+    items = header_items(prog) + [macro_tokens(m) for m in prog["macros"]]
+    for s in prog["body"]:
+        t = []
+        stmt_tokens(s, t)
+        items.append(t)
+    if order:
+        idx = list(range(len(items)))
+        for a, b in order:
+            if items:
+                i, j = a % len(items), b % len(items)
+                idx[i], idx[j] = idx[j], idx[i]
+        items = [items[i] for i in idx]
+    out = [("pad", "")]
+    for i, it in enumerate(items):
+        if i:
+            out.append(("sep", ""))
+        out.extend(it)
+    out.append(("pad", ""))
+    return out
+
+
+def _token_stream(prog, sepsel, order=None):
     toks = []
     j = 0
-    for kind, text in prog_tokens(prog):
+    for kind, text in (_item_order_tokens(prog, order) if order else prog_tokens(prog)):
         if kind == "tok":
             toks.append(refgrammar.classify(text)[:1] + (text,))
             continue
@@ -272,7 +300,7 @@ def negative(case):
     from jaqalpaq.parser.parser import parse_to_sexpression
     from jaqalpaq.parser.slyparse import JaqalParseError
 
-    toks = _token_stream(case["prog"], case["seps"])
+    toks = _token_stream(case["prog"], case["seps"], case.get("order"))
     for op, where, pool_i in case["muts"]:
         if not toks:
             break
@@ -295,6 +323,8 @@ def negative(case):
     rl = _rule_level(vt)
     st_, got = guard(parse_to_sexpression, text, what="parse_to_sexpression")
     classes = ["mut:" + "+".join(m[0] for m in case["muts"]) if case["muts"] else "mut:none"]
+    if case.get("order"):
+        classes.append("statements-permuted")
     if acc:
         classes.append("recognizer-accepts")
         if rl is not None:
